@@ -8,6 +8,7 @@ from .common import layout
 
 ID = "C16"
 LEVEL = "exploration"
+HISTORY = True  # every second shard first runs a prelude of earlier library use (history.py)
 RULE = (
     "all 102 primitive types: every value of every 8-bit type (exhaustive, both tiers); 16-bit types: declared members, interval "
     "ends +-2, width limits and hypothesis-drawn values (quick) / all 65536 values (thorough, exhaustive); 32/64-bit types: interval "
